@@ -71,3 +71,17 @@ Theorem C02_representation_invariant :
     = mp_check fo go hashf t cfg (mkMP (mkIPA L' R' a) D') cs' ys zs.
 Proof. intros F G fo go hashf eqv H1 H2 H3 H4 H5 H6. exact (mp_check_compat fo go hashf eqv H1 H2 H3 H4 H5 H6). Qed.
 Print Assumptions C02_representation_invariant.
+
+(* CheckIPAProof IS the textbook verifier: for every well-dimensioned configuration
+   (basis and b-vector of length 2^rounds) and EVERY proof object, commitment, point and
+   claimed result, the optimised verifier (bit-trick folding scalars, one MSM for g',
+   one inner product for b') returns exactly what the recursive-folding verifier returns:
+   same error cases, same final transcript, same decision *)
+Theorem C02_ipa_check_refines_textbook_verifier :
+  forall (F G : Type) (fo : FOps F) (go : GOps F G) (hashf : list Z -> list Z),
+  FieldLaws fo -> GroupLaws fo go ->
+  forall t cfg c pr z res,
+    length (c_srs cfg) = (2 ^ c_rounds cfg)%nat -> length (compute_b fo cfg z) = (2 ^ c_rounds cfg)%nat ->
+    ipa_check fo go hashf t cfg c pr z res = ipa_check_spec fo go hashf t cfg c pr z res.
+Proof. intros F G fo go hashf FL GL. exact (ipa_check_refines_spec fo go hashf FL GL). Qed.
+Print Assumptions C02_ipa_check_refines_textbook_verifier.
